@@ -1,1 +1,65 @@
-// harness bodies for h2 src/proto/streams/buffer.rs (compiled in-crate as `verif_h`, feature "verif")
+// harness bodies for h2 src/proto/streams/buffer.rs
+use super::*;
+
+/// A `Deque` that only *claims* to be non-empty (for functions that look at
+/// `is_empty()` and never dereference the queue, e.g. `Counts::transition_after`).
+pub(crate) fn fake_nonempty() -> Deque {
+    Deque { indices: Some(Indices { head: 0, tail: 0 }) }
+}
+pub(crate) fn slab_len<T>(b: &Buffer<T>) -> usize {
+    b.slab.len()
+}
+
+/// C01.order (queue part): `Deque` is FIFO for `push_back`, `push_front` puts an item
+/// ahead of everything, nothing is lost or duplicated - for every interleaving of <= 4
+/// push_back / push_front / pop_front operations on two deques sharing one `Buffer`.
+pub fn c01_order_deque_fifo() {
+    let mut buf: Buffer<u32> = Buffer::new();
+    let mut dq = [Deque::new(), Deque::new()];
+    // reference model: two small arrays
+    let mut model = [[0u32; 4]; 2];
+    let mut mlen = [0usize; 2];
+    let mut next_val = 1u32;
+    let mut step = 0;
+    while step < 4 {
+        let q: usize = kani::any();
+        kani::assume(q < 2);
+        let op: u8 = kani::any();
+        kani::assume(op < 3);
+        if op == 0 {
+            dq[q].push_back(&mut buf, next_val);
+            model[q][mlen[q]] = next_val;
+            mlen[q] += 1;
+            next_val += 1;
+        } else if op == 1 {
+            dq[q].push_front(&mut buf, next_val);
+            let mut i = mlen[q];
+            while i > 0 {
+                model[q][i] = model[q][i - 1];
+                i -= 1;
+            }
+            model[q][0] = next_val;
+            mlen[q] += 1;
+            next_val += 1;
+        } else {
+            let got = dq[q].pop_front(&mut buf);
+            if mlen[q] == 0 {
+                assert!(got.is_none(), "pop from an empty deque returned an item");
+            } else {
+                assert!(got == Some(model[q][0]), "Deque is not FIFO / push_front not at the head");
+                let mut i = 0;
+                while i + 1 < mlen[q] {
+                    model[q][i] = model[q][i + 1];
+                    i += 1;
+                }
+                mlen[q] -= 1;
+            }
+        }
+        assert!(dq[q].is_empty() == (mlen[q] == 0));
+        step += 1;
+    }
+    assert!(buf.slab.len() == mlen[0] + mlen[1], "buffer slots leaked or lost");
+    kani::cover!(mlen[0] == 2 && mlen[1] == 1, "two_queues_in_use");
+    kani::cover!(true, "end");
+    std::mem::forget(buf);
+}
